@@ -278,6 +278,8 @@ func (c CodeQuery) Exec(ctx *Context, loc *Location, qc QueryContext, qr QueryRe
 			for p, v := range bs {
 				more[p] = v
 			}
+			// The values come from the interpreter; see jsonTypes.
+			vv, _ = jsonTypes(vv).(map[string]interface{})
 			for p, v := range vv {
 				more["?"+p] = v
 				Log(DEBUG, ctx, "CodeQuery.Exec", "binding", p, "value", v)
